@@ -60,7 +60,10 @@ Value& MemberSETExpression::value(Context& ctx) const
       case Type::INTEGER:
         if (a0.type() == Type::NUMERIC)
         {
-          rv->at(_index).swap(Value(Value::integerOf(*a0.numeric())));
+          if (a0.isNull())
+            rv->at(_index).swap(Value(Value::type_integer));
+          else
+            rv->at(_index).swap(Value(Value::integerOf(*a0.numeric())));
           return val;
         }
         else if (a0.type() == Type::NO_TYPE)
@@ -72,7 +75,10 @@ Value& MemberSETExpression::value(Context& ctx) const
       case Type::NUMERIC:
         if (a0.type() == Type::INTEGER)
         {
-          rv->at(_index).swap(Value(Numeric(*a0.integer())));
+          if (a0.isNull())
+            rv->at(_index).swap(Value(Value::type_numeric));
+          else
+            rv->at(_index).swap(Value(Numeric(*a0.integer())));
           return val;
         }
         else if (a0.type() == Type::NO_TYPE)
